@@ -107,6 +107,27 @@ class CaseDir:
         return {"rc": p.returncode, "out": p.stdout, "err": p.stderr}
 
 
+def child_problem(r):
+    """Class tag if the child did not run to its own end — timed out, or killed by a signal
+    (negative return code: OOM killer, watchdog, ...) — else None.  Such an observation says
+    nothing about hy, so callers turn the case into a skip, never into a violation."""
+    if r["rc"] is None:
+        return "child-timeout"
+    if r["rc"] < 0:
+        return "child-killed"
+    return None
+
+
+def skip_gate(tot, classes, limit=0.10):
+    """Inconclusive reason if more than `limit` of the cases were skipped because a child
+    timed out / was killed / left no dump."""
+    n = sum(classes.get(k, 0) for k in ("child-timeout", "child-killed", "child-no-dump"))
+    total = tot.get("evaluations", 0) + tot.get("skipped", 0)
+    if n and n > limit * max(total, 1):
+        return f"child-processes-lost-in-{n}-of-{total}-cases"
+    return None
+
+
 def compiled_paths(stderr):
     """Paths reported by HY_MESSAGE_WHEN_COMPILING on a child's stderr."""
     out = []
